@@ -358,12 +358,23 @@ def main(argv=None):
     r = sub.add_parser("replay")
     r.add_argument("path")
     a = ap.parse_args(argv)
-    if a.cmd == "check":
-        tier = os.environ.get("VERIF_TIER") or a.tier or "quick"
-        seed = int(os.environ.get("VERIF_SEED", "0") or 0)
-        return check(a.property.upper(), tier, seed, a.only, a.workers, a.verbose)
-    if a.cmd == "replay":
-        return replay(a.path)
+    # every scratch file of this run (solver inputs, the files the concrete mode writes and reads back) lives under one
+    # directory that is removed when the run ends, whatever happened to the workers
+    import shutil
+    import tempfile
+    root = tempfile.mkdtemp(prefix="symcurie-run-")
+    os.environ["TMPDIR"] = root
+    tempfile.tempdir = root
+    try:
+        if a.cmd == "check":
+            tier = os.environ.get("VERIF_TIER") or a.tier or "quick"
+            seed = int(os.environ.get("VERIF_SEED", "0") or 0)
+            return check(a.property.upper(), tier, seed, a.only, a.workers, a.verbose)
+        if a.cmd == "replay":
+            return replay(a.path)
+    finally:
+        tempfile.tempdir = None
+        shutil.rmtree(root, ignore_errors=True)
 
 
 if __name__ == "__main__":
